@@ -8,6 +8,7 @@ import (
 	"go/token"
 	"go/types"
 	"regexp"
+	"sort"
 	"strings"
 
 	"golang.org/x/tools/go/ssa"
@@ -172,6 +173,11 @@ func (vc *VC) invoke(fr *Frame, st *State, x *ssa.Call, recv *Val, args []*Val) 
 		vc.u.declareUninterp("error_text", []string{"Any"}, "String")
 		return &Val{T: tString, S: "(error_text " + recv.S + ")"}
 	}
+	if fr.depth == 0 && fr.con != nil && fr.con.Flags["devirt"] && !fr.inDevirt {
+		if r := vc.devirt(fr, st, x, recv, args); r != nil {
+			return r
+		}
+	}
 	con := vc.eng.ifaceContract(c.Value.Type(), mname)
 	if con == nil {
 		vc.uncontr["invoke:"+typeStr(c.Value.Type())+"."+mname] = true
@@ -195,6 +201,118 @@ func (vc *VC) invoke(fr *Frame, st *State, x *ssa.Call, recv *Val, args []*Val) 
 	}
 	results := vc.applyContract(fr, st, x.Pos(), name, con, vars, sig.Results())
 	return tupleOrSingle(x.Type(), results)
+}
+
+// devirt splits an interface method call on the dynamic type of the receiver:
+// for every implementation in the package that has a contract for the method,
+// the case "the receiver is of that type" is the call of that method (checked
+// against its contract); the remaining case goes through the interface
+// contract. A case split on the dynamic type is exhaustive, so this is exact.
+func (vc *VC) devirt(fr *Frame, st *State, x *ssa.Call, recv *Val, args []*Val) *Val {
+	c := x.Call
+	mname := c.Method.Name()
+	iface, ok := types.Unalias(c.Value.Type()).Underlying().(*types.Interface)
+	if !ok {
+		return nil
+	}
+	cands := vc.devirtCands(iface, mname)
+	if len(cands) == 0 {
+		return nil
+	}
+	var sts []*State
+	var vals []*Val
+	var conds []string
+	var negs []string
+	for _, cd := range cands {
+		cond := fmt.Sprintf("(= (atag %s) %d)", recv.S, cd.tag)
+		negs = append(negs, not(cond))
+		s2 := st.clone()
+		s2.reach = vc.define("rc", "Bool", and(st.reach, cond))
+		rv := vc.unbox(s2, recv.S, cd.rt)
+		for _, f := range vc.wfFacts(rv.S, cd.rt, 0) {
+			vc.assume(implies(s2.reach, f))
+		}
+		r := vc.callFunc(fr, s2, x, cd.fn, append([]*Val{rv}, args...), nil)
+		sts = append(sts, s2)
+		vals = append(vals, r)
+		conds = append(conds, s2.reach)
+	}
+	if fr.con.Flags["devirt-closed"] {
+		// the receiver is proved to be one of the contracted implementations:
+		// no residual case
+		var pos []string
+		for _, n := range negs {
+			pos = append(pos, not(n))
+		}
+		g := or(pos...)
+		vc.oblige(st, "assert", "devirt-closed/"+mname, g, vc.pos(x.Pos()), "the receiver of "+mname+" is one of the contracted implementations")
+		vc.assume(implies(st.reach, g))
+	} else {
+		s3 := st.clone()
+		s3.reach = vc.define("rc", "Bool", and(append([]string{st.reach}, negs...)...))
+		fr.inDevirt = true
+		r3 := vc.invoke(fr, s3, x, recv, args)
+		fr.inDevirt = false
+		sts = append(sts, s3)
+		vals = append(vals, r3)
+		conds = append(conds, s3.reach)
+	}
+	m := vc.mergeStates(sts, "devirt")
+	*st = *m
+	if tup, ok := x.Type().(*types.Tuple); ok && tup.Len() == 0 {
+		return &Val{T: x.Type()}
+	}
+	if tup, ok := x.Type().(*types.Tuple); ok {
+		var out []*Val
+		for k := 0; k < tup.Len(); k++ {
+			var vs []*Val
+			for _, v := range vals {
+				vs = append(vs, v.Tup[k])
+			}
+			mv, ok := vc.mergeVals(conds, vs, "dv")
+			if !ok {
+				mv = vc.havocVal(tup.At(k).Type(), "dv")
+			}
+			out = append(out, mv)
+		}
+		return &Val{T: x.Type(), Tup: out}
+	}
+	mv, ok2 := vc.mergeVals(conds, vals, "dv")
+	if !ok2 {
+		vc.unsupported(st, "devirt-merge", vc.pos(x.Pos()))
+		return vc.havocVal(x.Type(), "dv")
+	}
+	return mv
+}
+
+type devirtCand struct {
+	fn  *ssa.Function
+	rt  types.Type
+	tag int
+}
+
+func (vc *VC) devirtCands(iface *types.Interface, mname string) []devirtCand {
+	var cands []devirtCand
+	var names []string
+	for name := range vc.eng.contracts {
+		names = append(names, name)
+	}
+	sort.Strings(names)
+	for _, name := range names {
+		if !strings.HasSuffix(name, "."+mname) {
+			continue
+		}
+		f := vc.eng.funcs[name]
+		if f == nil || f.Signature.Recv() == nil {
+			continue
+		}
+		rt := f.Signature.Recv().Type()
+		if !types.Implements(rt, iface) {
+			continue
+		}
+		cands = append(cands, devirtCand{f, rt, vc.u.tagOf(rt)})
+	}
+	return cands
 }
 
 // applyContract: assert requires, apply modifies, assume ensures over fresh results.
